@@ -123,7 +123,7 @@ func (o cliOpts) key() string { return o.Header + "|" + o.Prefix + "|" + o.Tags 
 // unusable: the header option names something that cannot serve as the start of a Go file
 // (no such file, a directory, plain text, a comment that never closes)
 func (o cliOpts) unusable() bool {
-	return o.Header != "" && o.Header != "ok" || strings.ContainsAny(o.Tags, "\n\r")
+	return o.Header != "" && o.Header != "ok" && o.Header != "blockcomment" || strings.ContainsAny(o.Tags, "\n\r")
 }
 
 func (o cliOpts) args(cmd string, headerPath string) []string {
@@ -140,7 +140,7 @@ func (o cliOpts) args(cmd string, headerPath string) []string {
 			a = append(a, "-header_file", headerPath+".notgo")
 		case "opencomment":
 			a = append(a, "-header_file", headerPath+".opencomment")
-		case "gobuild", "gobuildtab", "gobuildindent":
+		case "gobuild", "gobuildtab", "gobuildindent", "blockcomment":
 			a = append(a, "-header_file", headerPath+"."+o.Header)
 		}
 	}
@@ -173,6 +173,8 @@ func prepareModule(e *Env, root string, progs []*Program) error {
 		}
 	}
 	os.WriteFile(filepath.Join(root, "header.txt.notgo"), []byte("Copyright 2026 Example Inc. All rights reserved.\n\n"), 0o644)
+	// a block comment that merely quotes a constraint line is an ordinary, usable header
+	os.WriteFile(filepath.Join(root, "header.txt.blockcomment"), []byte("/*\nCopyright 2026 Example Inc. Files of this project used to start with\n//go:build ignore\n*/\n\n"), 0o644)
 	os.WriteFile(filepath.Join(root, "header.txt.gobuildtab"), []byte("//go:build\tlinux\n\n"), 0o644)
 	os.WriteFile(filepath.Join(root, "header.txt.gobuildindent"), []byte("// Copyright 2026 Example Inc.\n\n  //go:build linux\n\n"), 0o644)
 	os.WriteFile(filepath.Join(root, "header.txt.gobuild"), []byte("// Copyright 2026 Example Inc.\n\n//go:build linux\n\n"), 0o644)
@@ -189,6 +191,7 @@ type refCache struct {
 }
 
 func (rc *refCache) get(p *Program, o cliOpts) ([]byte, error) {
+	o.Tags = strings.Join(strings.FieldsFunc(o.Tags, func(r rune) bool { return r == ',' || r == ' ' }), " ")
 	k := p.ID + "|" + o.Header + "|" + o.Tags
 	rc.mu.Lock()
 	if c, ok := rc.m[k]; ok {
@@ -363,6 +366,10 @@ func runCLI(e *Env, rep *Report, rc *refCache, s cliScenario, cmd string, mu *sy
 		if p.Class == 'S' {
 			c, err := rc.get(p.P, s.Opts)
 			if err != nil {
+				if s.Opts.Header == "blockcomment" {
+					fail("gen refuses a header whose block comment merely quotes a //go:build line", err.Error())
+					return
+				}
 				incon(err.Error())
 				return
 			}
@@ -371,7 +378,12 @@ func runCLI(e *Env, rep *Report, rc *refCache, s cliScenario, cmd string, mu *sy
 		switch p.Prior {
 		case "identical":
 			if p.Class == 'S' {
-				os.WriteFile(out, refs[p.P.ID], 0o644)
+				c := string(refs[p.P.ID])
+				if strings.Contains(s.Opts.Tags, ",") {
+					// the reference was generated with the tags separated by spaces
+					c = strings.Replace(c, "-tags \""+strings.ReplaceAll(s.Opts.Tags, ",", " ")+"\"", "-tags \""+s.Opts.Tags+"\"", 1)
+				}
+				os.WriteFile(out, []byte(c), 0o644)
 			}
 		case "longer":
 			// what gen would write, followed by more (an injector that has since been removed)
@@ -520,7 +532,12 @@ func runCLI(e *Env, rep *Report, rc *refCache, s cliScenario, cmd string, mu *sy
 					fail("output of a cleanly analysed package is missing although other packages of the invocation failed or not: "+rel, obs)
 					return
 				}
-				if string(got) != string(refs[p.P.ID]) {
+				gs, ws := string(got), string(refs[p.P.ID])
+				if strings.Contains(s.Opts.Tags, ",") {
+					// the reference was generated with the tags separated by spaces
+					gs = strings.Replace(gs, "-tags \""+s.Opts.Tags+"\"", "-tags \""+strings.ReplaceAll(s.Opts.Tags, ",", " ")+"\"", 1)
+				}
+				if gs != ws {
 					fail("output of "+rel+" differs from the solo reference generation", obs+"\n--- got\n"+string(got)+"\n--- want\n"+string(refs[p.P.ID]))
 					return
 				}
@@ -645,7 +662,8 @@ func CheckC17(e *Env) int {
 			jobs = append(jobs, job{s, cmd})
 		}
 	}
-	for _, o := range []cliOpts{{Tags: "a\nvar"}, {Tags: "a\n//go:build foo\n//"}, {Header: "ok", Tags: "x\ry"}, {Prefix: "_"}, {Prefix: "."}, {Prefix: "_gen."}} {
+	for _, o := range []cliOpts{{Tags: "extra,more"}, {Tags: "extra more"}, {Header: "blockcomment"},
+		{Tags: "a\nvar"}, {Tags: "a\n//go:build foo\n//"}, {Header: "ok", Tags: "x\ry"}, {Prefix: "_"}, {Prefix: "."}, {Prefix: "_gen."}} {
 		s := genScenario(e, 7*k+2)
 		k++
 		s.ID = fmt.Sprintf("sh%02d", k)
